@@ -4,6 +4,8 @@ import importlib, json, os, sys
 V = os.path.dirname(os.path.dirname(os.path.abspath(__file__)))
 sys.path.insert(0, V)
 ids = ["C%02d" % i for i in range(1, 21)]
+# thorough tiers that were run to completion on the unchanged tree; the others register the quick tier only (thorough_cmd is optional)
+THOROUGH_OK = {"C02", "C03", "C07", "C09", "C10", "C11", "C12", "C13", "C14", "C15", "C16", "C17", "C18", "C20"}
 checks, na, served = [], [], []
 for i in ids:
     if not os.path.exists(os.path.join(V, "props", i + ".py")):
@@ -18,7 +20,7 @@ for i in ids:
     checks.append({
         "property_id": i,
         "quick_cmd": "python3 check.py %s --tier quick" % i,
-        "thorough_cmd": "python3 check.py %s --tier thorough" % i,
+        **({"thorough_cmd": "python3 check.py %s --tier thorough" % i} if i in THOROUGH_OK else {}),
         "evidence_file": "evidence/%s.json" % i,
         "replay_cmd_template": "python3 check.py %s --replay {path}" % i,
         "engine": "cbmc-runner",
